@@ -51,7 +51,9 @@ func (Prop) Rule() string {
 func (Prop) Assumptions() []string {
 	return []string{
 		"reference ZUC-128/ZUC-256/128-EIA3/ZUC-256-MAC written from the specifications, bit by bit, anchored by the ZUC, EEA3/EIA3 and ZUC-256 official vectors; S-boxes, the d constants and the ZUC-256 loading layout were copied once from the standard tables",
-		"keys and IVs are two fixed deterministic patterns per variant (the control flow of the implementation does not depend on key material); the quantifier over keys is not enumerated",
+		"the quantifier over keys is not enumerated: one fixed key/IV pattern per variant for the stream searches and the MAC histories, two (a mixed pattern and all-0xff) for the MAC bit-length sweeps; the control flow of the implementation does not depend on key material",
+		"the buffer mode (disjoint / in place / longer dst) is rotated along the histories, not multiplied with them; the E2 sweeps run all three modes",
+		"a wrong tag does not corrupt the MAC object (Sum works on a copy, Finish resets), so the MAC searches continue past tag mismatches and report them once per finding key and case",
 		"positions explored stay below 4 KiB; offsets >= 2^31 (int conversions of the 64-bit position) and streams long enough to wrap counters are not explored",
 		"dispatch tiers are those reachable on this amd64 host via GODEBUG=cpu.*=off and -tags purego; arm64 and ppc64 assembly is not covered",
 		"calls that violate a documented precondition answered by a panic (dst shorter than src, inexact overlap, Finish with len(p) < ceil(nbits/8)) are not enumerated",
